@@ -14,7 +14,7 @@ package cmap
 //@ spec g12total(d []byte, k int) int = ite(k <= 0, 0, g12total(d, k-1) + g12end(d, k-1) - g12start(d, k-1) + 1)
 //@ pred g12wf(d []byte) = len(d) >= 16 && len(d) == 16 + 12*g12n(d) && g12n(d) <= 1000000 && (forall i int :: 0 <= i && i < g12n(d) ==> g12ok(d, i)) && (forall k int :: 0 <= k && k <= g12n(d) ==> g12total(d, k) <= 65536)
 
-//@ func decodeFormat12(data []byte, code2rune func(c int) rune) (sub Subtable, err error)   props: C09 C02 C16
+//@ func decodeFormat12(data []byte, code2rune func(c int) rune) (sub Subtable, err error)   props: C09 C02 C16 C01
 //@   ensures code2rune == nil && err == nil ==> g12wf(data)
 //@   ensures code2rune == nil && g12wf(data) ==> err == nil
 //@   ensures err == nil ==> is(sub, Format12) && forall i int :: 0 <= i && i < g12n(data) ==> forall c int :: g12start(data, i) <= c && c <= g12end(data, i) ==> has(sub.(Format12), c) && sub.(Format12)[c] == uint16(g12gid(data, i) + c - g12start(data, i))
@@ -39,7 +39,7 @@ package cmap
 //@     invariant forall c2 int :: startCharCode <= c2 && c2 < c ==> has(cmap, c2) && cmap[c2] == uint16(startGlyphID + c2 - startCharCode)
 //@     decreases endCharCode + 1 - c
 
-//@ func Decode(data []byte) (tab Table, err error)   props: C02 C09 C16
+//@ func Decode(data []byte) (tab Table, err error)   props: C02 C09 C16 C01
 //@   ensures err == nil ==> tab != nil
 //@   modifies nothing
 //@   loop 0
